@@ -300,7 +300,7 @@ func (c05) Run(c *Case, src *vs.Src) *Result {
 		}
 	}
 	var sHS, rHS error
-	rUp := false
+	rUp, rHalf := false, false
 	var rcvEnd *simnet.Conn // the receiving endpoint's end of the transport
 	if pair != nil {
 		rcvEnd = pair.Pipe.S
@@ -354,6 +354,11 @@ func (c05) Run(c *Case, src *vs.Src) *Result {
 			sender.Close()
 			return
 		}
+		if p.HalfClosed {
+			// (the receiver half-closes first: a sender that has already closed the transport would turn the
+			// receiver's close_notify into a transport error, which is not what is looked at here)
+			vs.Block(func() bool { return rHalf || rHS != nil }, vs.Now().Add(30*time.Second))
+		}
 		for i := 0; i < p.N; i++ {
 			if _, err := sender.Write(c05Record(i, p.Len)); err != nil {
 				break
@@ -392,7 +397,9 @@ func (c05) Run(c *Case, src *vs.Src) *Result {
 			return
 		}
 		if p.HalfClosed {
-			if err := receiver.CloseWrite(); err != nil {
+			err := receiver.CloseWrite()
+			rHalf = true
+			if err != nil {
 				rHS = fmt.Errorf("CloseWrite: %w", err)
 				return
 			}
